@@ -1220,8 +1220,11 @@ Print Assumptions block_without_payload.
 Print Assumptions expr_without_value.
 Print Assumptions bytes_beyond_size.
 Print Assumptions wrong_version.
+Print Assumptions dup_rejected.
 Print Assumptions dup_other_kind.
-Print Assumptions fresh_impossible_iff.
+Print Assumptions fresh_never_impossible.
+Print Assumptions fresh_err_iff.
+Print Assumptions from_proto_never_impossible.
 Print Assumptions header_gate.
 Print Assumptions header_reject.
 Print Assumptions load_accept.
